@@ -220,8 +220,66 @@ def judge(part, model, db, sig, snippet, expr, x, q, xvals, kpy, ktol, result):
     return ("ok", expr in KEEP)
 
 
+def _mixed_task(_):
+    """x holds two units of one quantity type (only obtainable from a hand-made composing map): the implementation
+    unifies the units of k/x and k//x, so those are judged by physical amount (k divided by x's amount in base
+    units); k*x, x*k, x/k, x+k ... keep x's quantity and the raw values."""
+    import math
+    from collections import OrderedDict
+
+    from barril.units import Quantity
+
+    from .c04 import MIXED
+
+    part = Part()
+    with worlds.world("posc") as db:
+        model = Model(db)
+        for name, entries in MIXED:
+            for cls in ("Scalar", "Array"):
+                for k in (2.0, 3, np.float64(2.5), np.int64(4)):
+                    q = Quantity.CreateDerived(OrderedDict((c, list(ue)) for c, ue in entries))
+                    mk = (lambda: Scalar(q, 60.0)) if cls == "Scalar" else (lambda: Array(q, [60.0, -7.5]))
+                    xv = [60.0] if cls == "Scalar" else [60.0, -7.5]
+                    sig0 = "C09:mixed units %s:%s:k=%r" % (name, cls, k)
+                    for expr in EXPRS:
+                        part.count("evaluations")
+                        part.count("mixed_unit_operands")
+                        try:
+                            r = _apply(expr, mk(), k)
+                        except Exception as e:
+                            part.violation(sig0 + ":" + expr + ":raised", {"error": repr(e)})
+                            continue
+                        if type(r).__name__ != cls:
+                            part.violation(sig0 + ":" + expr + ":not an object of x's class", {"result": repr(r)})
+                            continue
+                        got = _values_of(r)
+                        if expr in KEEP:
+                            want = [float(_pyop(expr, v, float(k))) for v in xv]
+                            if r.GetQuantity() != q or not all(abs(g - w) <= 1e-12 * max(abs(w), 1.0) for g, w in zip(got, want)):
+                                part.violation(sig0 + ":" + expr + ":quantity or values changed", {"result": repr(r), "want": want})
+                            continue
+                        rq = r.GetQuantity()
+                        if model.dimension(rq) != {t: -e for t, e in model.dimension(q).items()}:
+                            part.violation(sig0 + ":" + expr + ":not the reciprocal dimension", {"result": repr(r)})
+                            continue
+                        for g, v in zip(got, xv):
+                            want_base = float(k) / float(model.base_magnitude(q, v))
+                            got_base = float(model.base_magnitude(rq, g))
+                            if expr == "k/x":
+                                ok = abs(got_base - want_base) <= 1e-12 * abs(want_base)
+                            else:  # k//x: the floor of the quotient expressed in the units of the result
+                                exact = float(model.base_magnitude(rq, 1.0))
+                                ok = g == math.floor(g) and abs(g - math.floor(want_base / exact + 1e-9)) <= 1.0
+                            if not ok:
+                                part.violation(sig0 + ":" + expr + ":another amount", {"result": repr(r), "got_base": got_base, "k_over_x_in_base_units": want_base})
+                                break
+    return part
+
+
 def _task(task):
     kind, payload = task
+    if kind == "mixed":
+        return _mixed_task(payload)
     if kind == "pairs":
         return _pairs_task(payload)
     if kind == "direct":
@@ -434,7 +492,7 @@ def run(ctx):
     n = 32 if ctx.thorough else 16
     tasks = [("pool", (depth, i, n)) for i in range(n)]
     tasks += [("pairs", STEPS[i::8]) for i in range(8)]
-    tasks += [("direct", None)]
+    tasks += [("direct", None), ("mixed", None)]
     if ctx.thorough:
         with worlds.world("posc") as db:
             qts = sorted(db.GetQuantityTypes(), key=lambda q: -len(db.GetUnits(q)))
